@@ -202,7 +202,7 @@ def run(tier, work):
         v.count("batch_mismatches")
         d0 = deviation(prog, mm[0][3], open_keys)
         if d0 and d0 in v.known:
-            v.count("known_finding_hits")      # same named deviation already confirmed alone in this run
+            v.known_hit(d0)                    # same named deviation already confirmed alone in this run
             continue
         job, obs2, rr, lines = alone(work, cfg, prog)
         mm = [o for o in obs2 if o[1] != o[2]]
